@@ -106,20 +106,25 @@ def nye(ctx):
     gG = symarray('d', (3, 3, 3), real=True)     # gradG[x, y, z] = d_z G[x, y]
     out = np.empty((2, 3, 3), dtype=object)
     out[...] = sp.Integer(0)
-    _ev(ctx, ST).run_fn(ctx.fn(ST, 'nye_c'), [gG, out, 1], {})
-    bad = []
-    for a in range(3):
-        for b in range(3):
-            w = gG[(a + 1) % 3, b, (a + 2) % 3] - gG[(a + 2) % 3, b, (a + 1) % 3]
-            if not is_zero(out[1, a, b] - w):
-                bad.append((a, b))
-    ctx.ob('NYE', loc + 'nye_c', 'α_ab = ∂G[a+1, b]/∂x_{a+2} - ∂G[a+2, b]/∂x_{a+1} (indices mod 3), stored in the row of the atom', not bad and all(v == 0 for v in np.ravel(out[0])), 'wrong entries %s' % bad, node=ctx.fn(ST, 'nye_c'))
+    # the two small kernels, when they exist as separate functions (solve_nye below is judged end to end either way)
+    knye = ctx.fn_opt(ST, 'nye_c')
+    if knye is not None:
+        _ev(ctx, ST).run_fn(knye, [gG, out, 1], {})
+        bad = []
+        for a in range(3):
+            for b in range(3):
+                w = gG[(a + 1) % 3, b, (a + 2) % 3] - gG[(a + 2) % 3, b, (a + 1) % 3]
+                if not is_zero(out[1, a, b] - w):
+                    bad.append((a, b))
+        ctx.ob('NYE', loc + 'nye_c', 'α_ab = ∂G[a+1, b]/∂x_{a+2} - ∂G[a+2, b]/∂x_{a+1} (indices mod 3), stored in the row of the atom', not bad and all(v == 0 for v in np.ravel(out[0])), 'wrong entries %s' % bad, node=knye)
     G = symarray('g', (3, 3, 3), real=True)
     nl = arr([[2, 2, 1], [1, 0, 0], [1, 0, 0]])
     dG = np.empty((2, 3, 3), dtype=object)
     dG[...] = sp.Integer(0)
-    _ev(ctx, ST).run_fn(ctx.fn(ST, 'dG_c'), [G, nl, dG, 0], {})
-    ctx.ob('NYE', loc + 'dG_c', 'dG_j = G[j-th neighbour] - G[atom], one row per neighbour in list order', equal(dG[0], G[2] - G[0], deep=False) and equal(dG[1], G[1] - G[0], deep=False), node=ctx.fn(ST, 'dG_c'))
+    kdg = ctx.fn_opt(ST, 'dG_c')
+    if kdg is not None:
+        _ev(ctx, ST).run_fn(kdg, [G, nl, dG, 0], {})
+        ctx.ob('NYE', loc + 'dG_c', 'dG_j = G[j-th neighbour] - G[atom], one row per neighbour in list order', equal(dG[0], G[2] - G[0], deep=False) and equal(dG[1], G[1] - G[0], deep=False), node=kdg)
     # solve_nye wiring
     fn = ctx.fn(ST, 'Strain.solve_nye')
     cls = ctx.fn(ST, 'Strain')
@@ -142,7 +147,6 @@ def nye(ctx):
         return (M,)
     obj = SymObj(cls, {'G': G, 'system': Sys(), 'neighbors': NL()}, 'self')
     ev = _ev(ctx, ST)
-    ev.funcs = {n.name: n for n in ctx.mod(ST).body if isinstance(n, ast.FunctionDef)}
     ev.np_override = {'numpy.linalg.lstsq': lstsq}
     try:
         ev.run_fn(fn, [obj], {})
